@@ -210,8 +210,8 @@ def check_system(cb, dec, label, do_convert=True):
     # doses / lag / bioavailability as declared
     for nm in names:
         c = cs.find_compartment(nm)
-        got = [(type(d).__name__, d.admid, str(d.amount)) for d in c.doses]
-        if got != dec.doses.get(nm, []):
+        got = sorted((type(d).__name__, d.admid, str(d.amount)) for d in c.doses)   # the order of doses is not semantic
+        if got != sorted(tuple(x) for x in dec.doses.get(nm, [])):
             rec('doses', 'violated', compartment=nm, got=got, declared=dec.doses.get(nm, []))
         if c.lag_time._sympy_() != dec.lag.get(nm, sympy.Integer(0)) or \
                 c.bioavailability._sympy_() != dec.bio.get(nm, sympy.Integer(1)):
@@ -239,8 +239,8 @@ def check_system(cb, dec, label, do_convert=True):
                 ok = False
         for nm in names2:
             c = cs2.find_compartment(nm)
-            got = [(type(d).__name__, d.admid, str(d.amount)) for d in c.doses]
-            want = [(k, a, 'DOSE' if amt == 'AMT' else amt) for k, a, amt in dec.doses.get(nm, [])]
+            got = sorted((type(d).__name__, d.admid, str(d.amount)) for d in c.doses)   # the order of doses is not semantic
+            want = sorted((k, a, 'DOSE' if amt == 'AMT' else amt) for k, a, amt in dec.doses.get(nm, []))
             lagw = dec.lag.get(nm, sympy.Integer(0)).xreplace(ssub)
             if got != want or c.lag_time._sympy_() != lagw:
                 rec('subs', 'violated', compartment=nm, doses=got, declared=want, lag=str(c.lag_time))
@@ -364,11 +364,13 @@ def op_instances(dec):
                 break
         inst.append(('remove_dose', a))
     for a in dosed:
+        inst.append(('add_infusion', a))
         inst.append(('set_lag', a))
         inst.append(('set_bio', a))
     for a in comps[-1:]:
         inst.append(('set_dose', a))
         inst.append(('add_dose', a))
+        inst.append(('add_infusion', a))
         inst.append(('set_lag', a))
         inst.append(('set_bio', a))
         inst.append(('set_input', a))
@@ -418,6 +420,10 @@ def apply_op(cb, dec, op, step):
     elif kind == 'add_dose':
         cb.add_dose(find(op[1]), Bolus.create('AMT2', admid=3))
         dec.doses[op[1]] = dec.doses.get(op[1], []) + [('Bolus', 3, 'AMT2')]
+    elif kind == 'add_infusion':
+        # a second dose of another kind on a compartment (bolus stored before infusion)
+        cb.add_dose(find(op[1]), Infusion.create('AMT4', admid=4, duration='D4'))
+        dec.doses[op[1]] = dec.doses.get(op[1], []) + [('Infusion', 4, 'AMT4')]
     elif kind == 'remove_dose':
         cb.remove_dose(find(op[1]))
         dec.doses.pop(op[1], None)
